@@ -9,6 +9,7 @@ import (
 	"sort"
 	"strconv"
 	"strings"
+	"time"
 
 	"github.com/sirupsen/logrus"
 	appsv1 "k8s.io/api/apps/v1"
@@ -307,6 +308,70 @@ func runK8sShards(c *K8sShardsCase, rng *Rng) (string, map[string]interface{}) {
 	return w.String(), map[string]interface{}{"shards": rows}
 }
 
+// k8sRollHistory: one long-lived ReplicasManager sees a StatefulSet go through every sequence of three
+// statuses (replicas, updated, ready) out of a small catalogue, three minutes apart (the manager's own
+// "not ready since" stamps are aged through the verif hook).  Whatever it saw before: while a rolling update
+// is in progress (updated != replicas) the StatefulSet is not coordinated, and a settled, ready one is.
+func k8sRollHistory(res *Result) {
+	type st struct{ r, u, rd int32 }
+	cat := []st{{3, 3, 3}, {3, 3, 2}, {3, 1, 2}, {3, 1, 3}, {3, 2, 0}, {2, 2, 1}}
+	n := 0
+	for _, a := range cat {
+		for _, b := range cat {
+			for _, c := range cat {
+				for _, age := range []time.Duration{0, 3 * time.Minute} {
+					seq := []st{a, b, c}
+					rep := seq[0].r
+					obj := newSts(&rep, 0, seq[0].r, seq[0].u)
+					obj.Status.ReadyReplicas = seq[0].rd
+					cli := fake.NewSimpleClientset(obj)
+					rm := kk.NewReplicasManager(cli, stsNS, "app=kvass", 8080, false, quietLog())
+					hist := ""
+					for k, x := range seq {
+						if k > 0 {
+							rm.VerifAgeStamps(age)
+							cur, err := cli.AppsV1().StatefulSets(stsNS).Get(context.TODO(), stsName, metav1.GetOptions{})
+							if err != nil {
+								break
+							}
+							cur.Status.Replicas, cur.Status.UpdatedReplicas, cur.Status.ReadyReplicas = x.r, x.u, x.rd
+							if _, err := cli.AppsV1().StatefulSets(stsNS).UpdateStatus(context.TODO(), cur, metav1.UpdateOptions{}); err != nil {
+								if _, err := cli.AppsV1().StatefulSets(stsNS).Update(context.TODO(), cur, metav1.UpdateOptions{}); err != nil {
+									break
+								}
+							}
+						}
+						mgrs, err := rm.Replicas()
+						if err != nil {
+							break
+						}
+						hist += fmt.Sprintf("(replicas=%d updated=%d ready=%d -> %d manager(s)) ", x.r, x.u, x.rd, len(mgrs))
+						n++
+						bad := ""
+						if x.u != x.r && len(mgrs) != 0 {
+							res.count("roll_history_rolling_coordinated")
+							bad = "a StatefulSet whose rolling update is in progress is coordinated"
+						}
+						if x.u == x.r && x.rd == x.r && len(mgrs) != 1 {
+							bad = "a settled and ready StatefulSet is not coordinated"
+						}
+						if x.u != x.r {
+							res.count("roll_history_rolling_call")
+						}
+						if bad != "" {
+							res.ImplViol = capViol(res.ImplViol, Violation{Property: "C18", Clause: "rollingHistory", Signature: "C18/rollingHistory",
+								What: fmt.Sprintf("%s; one ReplicasManager, calls %v apart: %s", bad, age, hist),
+								Case: map[string]interface{}{"case": map[string]interface{}{"kind": "rollingHistory", "statuses": seq, "minutes_between_calls": age.Minutes()}}}, 2)
+						}
+					}
+				}
+			}
+		}
+	}
+	res.Evaluations += n
+	res.Dist["roll_history_calls"] = n
+}
+
 func runK8sRoll(c *K8sRollCase) (string, map[string]interface{}) {
 	n := c.Replicas
 	cli := fake.NewSimpleClientset(newSts(&n, 0, c.Replicas, c.Updated))
@@ -422,6 +487,9 @@ func runK8s(a Args) *Result {
 	}
 	res.Evaluations = len(lines)
 	res.Exhaustive = true
+	if a.replay == "" && a.wants("C18") {
+		k8sRollHistory(res)
+	}
 	answers, err := runDriver(a.driver, "k8s", lines)
 	if err != nil {
 		res.Mismatch = append(res.Mismatch, Violation{Property: "C18", Clause: "driver", Signature: "driver-failure", What: err.Error()})
